@@ -39,7 +39,8 @@ def corpus(workdir, seed=0):
     os.makedirs(workdir, exist_ok=True)
     items = []
     nrand = int(os.environ.get("VERIF_NRAND", "48"))
-    for label, code in gen_corpus.gen(seed) + gen_corpus.gen_opt(seed) + gen_corpus.gen_random(seed, nrand):
+    for label, code in (gen_corpus.gen(seed) + gen_corpus.gen_opt(seed) + gen_corpus.gen_random(seed, nrand)
+                        + gen_corpus.gen_random_seq(seed, max(8, nrand // 2))):
         h = hashlib.sha1(code.encode()).hexdigest()[:10]
         p = os.path.join(workdir, f"gen_{re.sub(r'[^A-Za-z0-9_]', '_', label)}_{h}.veryl")
         if not os.path.exists(p):
